@@ -7,9 +7,11 @@ META = dict(
     text="Every errno in errno.errorcode (130 on Linux) is raised as a real OSError, and every TLS error kind (SSLWantRead, "
          "SSLWantWrite, SSLEOFError, SSLZeroReturnError, SSLSyscallError, SSLError, certificate error) as the real ssl "
          "exception, from send and recv of Client, ClientTls, Incomer and IncomerTls - called directly, through "
-         "serviceTxes/serviceReceives/serviceReceiveOnce, and after one successful transfer in the same service call; every "
+         "serviceTxes/serviceReceives/serviceReceiveOnce, and after one successful transfer in the same service call (the "
+         "direct and after-transfer entries again with ioflo's console at profuse verbosity and payloads that are not UTF-8); every "
          "errno is also returned (and raised) by connect_ex for both client classes, raised by do_handshake for both TLS "
-         "classes, and raised by sendto/recvfrom under a real UdpStack + SocketUdpNb. Oracle = the statement's table: "
+         "classes, and raised by sendto/recvfrom under a real UdpStack + SocketUdpNb, with console verbosity {0, profuse} x payload {ASCII, not "
+         "valid UTF-8}. Oracle = the statement's table: "
          "loss set (ECONNRESET, ENETRESET, ENETUNREACH, EHOSTUNREACH, ENETDOWN, EHOSTDOWN, ETIMEDOUT, ECONNREFUSED, TLS EOF) "
          "=> cutoff set, 0 / b'' returned, nothing raised; would-block => nothing raised and connection state unchanged; "
          "anything else => the same exception propagates; datagram stack: a loss-set errno on send keeps the packet for a "
@@ -45,6 +47,28 @@ def init():
     from ioflo.aio.proto import stacking, packeting
     FSM = net.FakeSocketModule().install()
     M = dict(clienting=clienting, serving=serving, stacking=stacking, packeting=packeting)
+
+
+class NullFile:
+    """Sink for ioflo's console while it runs at profuse verbosity."""
+    name = "<null>"
+    closed = False
+
+    def write(self, msg):
+        return len(msg)
+
+    def flush(self):
+        pass
+
+
+def set_loud(loud):
+    """loud: console verbosity profuse (ioflo then formats payload dumps on every send / receive / error path),
+    output discarded; else verbosity 0."""
+    from ioflo.aid.consoling import getConsole
+    con = getConsole()
+    if not isinstance(con._file, NullFile):
+        con._file = NullFile()
+    con.reinit(verbosity=con.Wordage.profuse if loud else 0)
 
 
 def faults(tls):
@@ -112,7 +136,9 @@ def same_exc(ex, fault):
     return isinstance(ex, OSError) and not isinstance(ex, ssl.SSLError) and ex.args[0] == fault[1]
 
 
-def stream_case(kind, op, entry, fault, p):
+def stream_case(kind, op, entry, fault, p, loud=False):
+    set_loud(loud)
+    one, two = (b"\xffne", b"tw\xfe") if loud else (b"one", b"two")     # loud: payloads that are not valid UTF-8
     tls = kind.endswith("Tls")
     fn = net.FakeNet()
     t, raw = make_stream(kind, fn)
@@ -120,26 +146,26 @@ def stream_case(kind, op, entry, fault, p):
     progress = b""
     if op == "send":
         if entry == "after-progress":
-            t.tx(b"one")
-            t.tx(b"two")
+            t.tx(one)
+            t.tx(two)
             raw.force("send", net.N(3), fault)
-            progress = b"one"
+            progress = one
         else:
             raw.force("send", fault)
             if entry != "direct":
-                t.tx(b"one")
+                t.tx(one)
     else:
         if entry == "after-progress":
-            raw.feed(b"onetwo")
+            raw.feed(one + two)
             raw.force("recv", net.N(3), fault)
-            progress = b"one"
+            progress = one
         else:
             raw.force("recv", fault)
     before = snap(t, raw)
     ret = raised = None
     try:
         if op == "send":
-            ret = t.send(b"one") if entry == "direct" else t.serviceTxes()
+            ret = t.send(one) if entry == "direct" else t.serviceTxes()
         else:
             if entry == "direct":
                 ret = t.receive()
@@ -160,7 +186,7 @@ def stream_case(kind, op, entry, fault, p):
         got = "changed"
     p.evaluations += 1
     p.outcome("%s %s" % (want, got))
-    p.nontrivial("%s|%s|%s|%s" % (kind, op, entry, net.show(fault)))
+    p.nontrivial("%s|%s|%s|%s|%d" % (kind, op, entry, net.show(fault), loud))
     ok = True
     why = ""
     if want == "loss":
@@ -178,7 +204,7 @@ def stream_case(kind, op, entry, fault, p):
             if not ok:
                 got += "+returned-%r" % (ret,)
         if ok and op == "send" and entry == "service":
-            ok = after[8] == (b"one",)
+            ok = after[8] == (one,)
             why = "queue %r" % (after[8],)
     elif want == "block-or-raise":
         ok = got in ("unchanged", "raised")
@@ -199,10 +225,10 @@ def stream_case(kind, op, entry, fault, p):
                     once="serviceReceiveOnce")
         meth["after-progress"] = meth["service"]
         p.violation("%s.%s|%s->%s" % (kind, op, want, got),
-                    "fault=%s entry=%s" % (net.show(fault), entry),
+                    "fault=%s entry=%s%s" % (net.show(fault), entry, " console=profuse payload=non-utf8" if loud else ""),
                     "%s: socket %s raising %s inside %s() must be handled as '%s' but was '%s' %s"
                     % (kind, op, net.show(fault), meth[entry], want, got, why),
-                    dict(case=["stream", kind, op, entry, list(fault)],
+                    dict(case=["stream", kind, op, entry, list(fault), loud], console_profuse=loud,
                          transport=kind, socket_op=op, method=meth[entry], fault=net.show(fault), expected=want,
                          observed=got, returned=repr(ret), raised=repr(raised), before=before, after=after,
                          how="connect the transport over doubles, make the next %s() of its socket raise the fault, "
@@ -314,7 +340,9 @@ def handshake_case(kind, fault, p):
                          raised=repr(raised)))
 
 
-def udp_case(op, e, p):
+def udp_case(op, e, p, loud=False, binary=False):
+    set_loud(loud)
+    p1, p2, d1, d2 = (b"\xff\xfe", b"\xfe\xff", b"\xffd", b"\xfed") if binary else (b"p1", b"p2", b"d1", b"d2")
     fn = net.FakeNet()
     FSM.net = fn
     stk = M["stacking"].UdpStack(ha=(net.LOOP, 9000), name="udp")
@@ -324,10 +352,10 @@ def udp_case(op, e, p):
     name = errno.errorcode[e]
     transient = e in LOSS
     p.evaluations += 1
-    p.nontrivial("udp|%s|%d" % (op, e))
+    p.nontrivial("udp|%s|%d|%d|%d" % (op, e, loud, binary))
     raised = None
     if op == "sendto":
-        pkts = [M["packeting"].Packet(stack=stk, packed=b"p1"), M["packeting"].Packet(stack=stk, packed=b"p2")]
+        pkts = [M["packeting"].Packet(stack=stk, packed=p1), M["packeting"].Packet(stack=stk, packed=p2)]
         for pk in pkts:
             stk.transmit(pk, ha=(net.LOOP, 9001))
         ss.force("sendto", net.ERR(e))
@@ -345,13 +373,13 @@ def udp_case(op, e, p):
         got2 = list(d for d, s in other.dinbox)
         if raised is not None:
             got = "raised" if (isinstance(raised, OSError) and raised.args[0] == e) else "raised-other(%s)" % type(raised).__name__
-        elif sorted(got2) == [b"p1", b"p2"] and len(stk.txPkts) == 0:
+        elif sorted(got2) == sorted([p1, p2]) and len(stk.txPkts) == 0:
             got = "retried"
         else:
             got = "lost-or-repeated %r" % (got2,)
     else:
-        other.sendto(b"d1", (net.LOOP, 9000))
-        other.sendto(b"d2", (net.LOOP, 9000))
+        other.sendto(d1, (net.LOOP, 9000))
+        other.sendto(d2, (net.LOOP, 9000))
         ss.force("recvfrom", net.ERR(e))
         try:
             stk.serviceReceives()
@@ -361,16 +389,16 @@ def udp_case(op, e, p):
         rx = [bytes(pk.packed) for pk, ha in stk.rxPkts]
         if raised is not None:
             got = "raised" if (isinstance(raised, OSError) and raised.args[0] == e) else "raised-other(%s)" % type(raised).__name__
-        elif rx == [b"d1", b"d2"]:
+        elif rx == [d1, d2]:
             got = "retried"
         else:
             got = "lost-or-repeated %r" % (rx,)
     p.outcome("udp %s %s %s" % (op, "transient" if transient else "other", got.split(" ")[0]))
     if transient and got != "retried":
-        p.violation("UdpStack.%s|transient->%s" % (op, got), "errno=%s" % name,
+        p.violation("UdpStack.%s|transient->%s" % (op, got), "errno=%s%s%s" % (name, " console=profuse" if loud else "", " payload=non-utf8" if binary else ""),
                     "UdpStack over SocketUdpNb: %s raising %s (transient destination error) must be retryable, observed '%s'"
                     % (op, name, got),
-                    dict(case=["udp", op, e],
+                    dict(case=["udp", op, e, loud, binary], console_profuse=loud, payload_not_utf8=binary,
                          stack="UdpStack", socket_op=op, errno=name, observed=got, raised=repr(raised),
                          how="UdpStack(ha=...) over a datagram double; make the next %s() raise the errno; call "
                              "serviceTxPkts()/serviceReceives() twice" % op))
@@ -390,13 +418,13 @@ def finish_replay(pid, path, p):
 
 def run_case(c, p):
     if c[0] == "stream":
-        stream_case(c[1], c[2], c[3], tuple(c[4]), p)
+        stream_case(c[1], c[2], c[3], tuple(c[4]), p, *c[5:6])
     elif c[0] == "connect":
         connect_case(c[1], c[2], c[3], p)
     elif c[0] == "handshake":
         handshake_case(c[1], tuple(c[2]), p)
     else:
-        udp_case(c[1], c[2], p)
+        udp_case(c[1], c[2], p, *c[3:5])
 
 
 def cases():
@@ -418,6 +446,18 @@ def cases():
     for op in ("sendto", "recvfrom"):
         for e in net.ALL_ERRNOS:
             out.append(("udp", op, e))
+    # the same faults with ioflo's console at profuse verbosity (payload dumps are formatted on the send / receive /
+    # error paths) and payloads that are not valid UTF-8
+    for kind in STREAMS:
+        tls = kind.endswith("Tls")
+        for op in ("send", "recv"):
+            for entry in (("direct", "after-progress") if op == "send" else ("direct", "after-progress")):
+                for f in faults(tls):
+                    out.append(("stream", kind, op, entry, f, True))
+    for op in ("sendto", "recvfrom"):
+        for loud, binary in ((True, False), (False, True), (True, True)):
+            for e in net.ALL_ERRNOS:
+                out.append(("udp", op, e, loud, binary))
     return out
 
 
@@ -432,6 +472,7 @@ def work(arg):
         for i in range(lo, hi):     # contiguous blocks: merging in shard order keeps the earliest example per group
             c = all_cases[i]
             run_case(c, p)
+            set_loud(False)
             if i % 997 == 0:
                 p.sample(dict(case=[x if not isinstance(x, tuple) else net.show(x) for x in c]))
     return p
